@@ -246,7 +246,11 @@ func vnHistory(t *vnToks) (res string) {
 			if closed {
 				close(reply)
 			} else {
-				reply <- list
+				select {
+				case reply <- list:
+				case <-time.After(20 * time.Second):
+					panic("verif: processConsumerList did not read its reply channel")
+				}
 			}
 			nc.running.Wait()
 		case "c":
@@ -285,7 +289,11 @@ func vnHistory(t *vnToks) (res string) {
 				}
 			}()
 			nc.sendClusterRequest()
-			<-served
+			select {
+			case <-served:
+			case <-time.After(20 * time.Second):
+				panic("verif: the refresh cycle did not send the expected storage requests")
+			}
 			nc.running.Wait()
 		default:
 			panic("verif: unknown step kind " + kind)
